@@ -144,18 +144,26 @@ def drive(hbin, spath, n_sessions, per_call_timeout=20, max_stuck=4):
     events = []
     start = 0
     stuck = 0
+    confirming = None     # a session whose apparent hang is being confirmed with a four times longer watchdog
     while start < n_sessions and stuck < max_stuck:
         p = subprocess.Popen([hbin, "session", "--sessions", spath, "--start", str(start)], stdout=subprocess.PIPE,
                              stderr=subprocess.DEVNULL, text=True, bufsize=1)
         cur = None       # (session, k) announced and not finished
         sess = start
         ended = False
+        retry = False
         while True:
-            r, _, _ = select.select([p.stdout], [], [], per_call_timeout)
+            r, _, _ = select.select([p.stdout], [], [], per_call_timeout * (4 if confirming == sess else 1))
             if not r:
                 p.kill()
                 p.wait()
-                events.append(("hang", cur))
+                if confirming != sess:
+                    # a busy machine can stall a child for a while: the verdict needs the same point to stall again
+                    confirming = sess
+                    events[:] = [e for e in events if not (e[0] == "end" and e[1] == sess)]
+                    retry = True
+                    break
+                events.append(("hang", cur if cur else (sess, -1)))
                 stuck += 1
                 break
             line = p.stdout.readline()
@@ -179,6 +187,9 @@ def drive(hbin, spath, n_sessions, per_call_timeout=20, max_stuck=4):
                 cur = None
         if ended:
             break
+        if retry:
+            start = sess
+            continue
         start = (cur[0] if cur else sess) + 1     # the session that hung / exited is abandoned
     return events
 
@@ -220,7 +231,7 @@ def run(v):
                 skipped += 1
             elif e[0] in ("hang", "exit"):
                 si, k = e[1] if e[1] else (-1, -1)
-                c = sess[si]["calls"][k] if si >= 0 else {}
+                c = sess[si]["calls"][k] if si >= 0 and k >= 0 else ({"op": "setup (build + help probe)"} if si >= 0 else {})
                 v.report({"rule": "call_did_not_return", "how": e[0], "op": c.get("op"), "rev": c.get("rev"), "named": c.get("named")},
                          {"def": sess[si]["def"] if si >= 0 else None, "call": c, "session": si, "k": k})
     t = run_tlc("HistoryTrace", "HistoryTrace.cfg", env={"TRACE": trace}, workers=1,
